@@ -60,4 +60,15 @@ CLAIMED['C07'] = {
     'technique': 'contract-based deductive verification (cache representation invariants by symbolic execution + z3; frame clauses by a syntactic checker) + bounded history oracle',
 }
 
+CLAIMED['C08'] = {
+    'category': 'proof',
+    'text': 'raises-clauses function by function: the two evaluator dispatchers let only ExpressionError escape whatever the dispatched method '
+            'raises (every Exception subclass explored), the public entry points raise at most ExpressionError, and every caller on the classification '
+            'and view path (match, _evaluate_*, _resolve_tags, apply_transforms, _resolve_dynamic_tags, normalize_merchant, evaluate_variables, '
+            'evaluate_section_filter, classify_merchants) raises nothing, each discharged from callee contracts plus its own handlers.',
+    'level_note': _BASE_NOTE + ' Values of unknown dynamic type are over-approximated (any operation may raise the operator/lookup errors); '
+                  'BaseException-only classes and resource exhaustion are outside the claim.',
+    'technique': 'contract-based deductive verification of raises-clauses (symbolic execution with exception outcomes of callees from their contracts) + bounded oracle of failing expressions in every position',
+}
+
 NOT_APPLICABLE = {}
